@@ -227,6 +227,12 @@ pub fn chan_name(tag: &str) -> String {
     format!("vh-{}-{}", tag, std::process::id())
 }
 
+/// like `chan_name`, but distinct for every call (tuples of E3 run on several threads of one process)
+pub fn chan_name_unique(tag: &str) -> String {
+    static N: std::sync::atomic::AtomicU64 = std::sync::atomic::AtomicU64::new(0);
+    format!("vh-{}-{}-{}", tag, std::process::id(), N.fetch_add(1, std::sync::atomic::Ordering::Relaxed))
+}
+
 /// removes the backing file the mmap-log channel created for `name`
 pub fn cleanup_mmap(name: &str) {
     let _ = std::fs::remove_file(format!("/tmp/{name}.mmap"));
